@@ -163,6 +163,18 @@ fn build(v: &Value, interp: &Interpreter) -> Variable {
     }
 }
 
+/// a struct with two or more fields somewhere in the value
+fn multi_field_struct(v: &Value) -> bool {
+    match v {
+        Value::Object(m) => {
+            (m.get("k").and_then(Value::as_str) == Some("struct") && m.get("fs").and_then(Value::as_array).is_some_and(|f| f.len() >= 2))
+                || m.values().any(multi_field_struct)
+        }
+        Value::Array(a) => a.iter().any(multi_field_struct),
+        _ => false,
+    }
+}
+
 fn strip_tags(v: &Value) -> Value {
     match v {
         Value::Object(m) => {
@@ -361,7 +373,9 @@ fn run_case(lib: &Lib, id: &Value, name: &str, args: &[Value], pred: &Value, is_
     if k(&p_out) == "value" && k(&h_out) == "value" && strip_tags(&p_out["v"]) != strip_tags(&h_out["v"])
         && !(name.starts_with("std.io.") || name.starts_with("std.fs.")
              // (the text of a function or of a cell holding one is not a function of the value's content)
-             || (name == "std.convert.to_string" && { let t = serde_json::to_string(args).unwrap_or_default(); t.contains("\"fnv\"") || t.contains("\"cell\"") })) {
+             // (... and the order in which the fields of a struct are printed may differ between two values of equal content:
+             // the field map is a HashMap with keys of its own)
+             || (name == "std.convert.to_string" && { let t = serde_json::to_string(args).unwrap_or_default(); t.contains("\"fnv\"") || t.contains("\"cell\"") || args.iter().any(multi_field_struct) })) {
         mm.push("routes", json!({"id": id, "name": name, "program": text, "args": args, "prog": p_out["v"], "host": h_out["v"]}));
     }
     if samples.len() < 4 && k(pred) == "exact" && id.as_u64().unwrap_or(0) % 577 == 3 {
